@@ -118,6 +118,10 @@ pub enum Act {
     Delete { r: usize, t: u8 },
     /// update property `p` of task `t` to `v` (None = remove) with timestamp `ts` seconds
     Update { r: usize, t: u8, p: String, v: Option<String>, ts: i64 },
+    /// like `Update`, but the operation's recorded old value is the NEW value (what a caller
+    /// records who holds a stale copy of the task in which the property already had that value);
+    /// old values never leave the replica and must not influence what is stored or sent
+    UpdateStale { r: usize, t: u8, p: String, v: Option<String>, ts: i64 },
     /// update property "f" to the 1 000 001-byte value
     Big { r: usize, t: u8, ts: i64 },
     /// an undo point (never leaves the replica)
@@ -140,6 +144,7 @@ impl Act {
             Act::Create { r, .. }
             | Act::Delete { r, .. }
             | Act::Update { r, .. }
+            | Act::UpdateStale { r, .. }
             | Act::Big { r, .. }
             | Act::UndoPoint { r }
             | Act::CreateSet { r, .. }
@@ -179,6 +184,16 @@ pub fn local_op(tasks: &Tasks, a: &Act) -> Option<Operation> {
                 uuid: u,
                 property: p.clone(),
                 old_value: old.get(p).cloned(),
+                value: v.clone(),
+                timestamp: ts(*s),
+            })
+        }
+        Act::UpdateStale { t, p, v, ts: s, .. } => {
+            let u = tid(*t);
+            tasks.get(&u).map(|_| Operation::Update {
+                uuid: u,
+                property: p.clone(),
+                old_value: v.clone(),
                 value: v.clone(),
                 timestamp: ts(*s),
             })
@@ -478,6 +493,7 @@ pub fn act_str(a: &Act) -> String {
             "R{r}:T{t}.{p}={}@{ts}",
             v.as_deref().unwrap_or("∅")
         ),
+        Act::UpdateStale { r, t, p, v, ts } => format!("R{r}:T{t}.{p}={}@{ts} (recorded old value = new value)", v.as_deref().unwrap_or("∅")),
         Act::Big { r, t, ts } => format!("R{r}:T{t}.f=<1000001 bytes>@{ts}"),
         Act::UndoPoint { r } => format!("R{r}:undo-point"),
         Act::CreateSet { r, t } => format!("R{r}:commit[create T{t}; T{t}.p=a@1]"),
